@@ -34,6 +34,7 @@ from vlib.val import line, Word
 from translate import deriv_dispatch
 
 ID = 'C03'
+PYOBJECT_METHODS = ['derivative']   # splineobject.py methods re-translated and proved equal to the hand model each run
 RTOL = 1e-8
 ATOL = 1e-10
 RULE = ('objects: curves/surfaces/volumes, dim 2-3, orders 1..4 (volumes 1..3), open and periodic directions, interior '
